@@ -1,6 +1,7 @@
 """C01 - no oversubscription, one server per instance, views agree, spellings."""
 from mc.props import _cellprop
-from mc.worlds import cellcfg, cellmon
+from mc.props import _masterprop
+from mc.worlds import cellcfg, cellmon, mastercfg
 
 BUDGET = {'quick': 60, 'thorough': 600}
 
@@ -36,10 +37,29 @@ def _k2():
     return cfg
 
 
+def _m1():
+    """World B: the same through ZooKeeper events (real Loader.reload_server,
+    remove_server, restore_placement, restarts)."""
+    cfg = mastercfg.m1()
+    cfg['cellmonitors'] = [cellmon.mon_c01]
+    cfg['events'] = mastercfg.ev(
+        ('app+', 'sm'), ('app+', 'id'), ('app+', 'hi'), ('app+', 'on'),
+        ('app-', 0), ('prio', 0, 100),
+        ('pres-', 's0'), ('pres+', 's0', 0), ('pres+', 's0', 1),
+        ('srv', 's0', 1), ('srv', 's0', 0), ('srv-', 's1'), ('srv+', 's1', 0),
+        ('alloc', 1), ('idg', 'g', 1),
+        ('state', 's0', 'frozen', 0), ('state', 's0', 'up', -1),
+        ('tick', 40), ('noop',), ('restart',),
+    )
+    return cfg
+
+
 def configs(ctx):
     if ctx.quick:
-        return [('K1', _k1(), 4, 1)]
-    return [('K1', _k1(), 6, 2), ('K2', _k2(), 6, 1)]
+        return [('K1', _k1(), 4, 1, _cellprop.CellSpec, 2.0),
+                ('M1', _m1(), 3, 0, _masterprop.MasterSpec, 1.0)]
+    return [('K1', _k1(), 6, 2), ('K2', _k2(), 6, 1),
+            ('M1', _m1(), 5, 1, _masterprop.MasterSpec)]
 
 
 RULE = ('BFS over histories of cell events x {cycle, no cycle}; a transition '
@@ -50,7 +70,7 @@ RULE = ('BFS over histories of cell events x {cycle, no cycle}; a transition '
 def run(ctx):
     out = _cellprop.run_configs(
         ctx, configs(ctx), ['c01_cycles_with_moves'], RULE,
-        _cellprop.BASE_ASSUMPTIONS)
+        _cellprop.BASE_ASSUMPTIONS + _masterprop.ASSUMPTIONS[:2])
     return out
 
 
